@@ -61,7 +61,7 @@ def run(ck):
         run_impl(ck, thorough)
     # --- code -> spec: random histories over random reader schedules
     n = 30000 if thorough else 2500
-    s2 = ck.drive("stream", "record", "-n", n, "-steps", 80 if thorough else 60, "-long", 12 if thorough else 3, "-seed", ck.seed,
+    s2 = ck.drive("stream", "record", "-n", n, "-steps", 80 if thorough else 60, "-long", 18 if thorough else 6, "-seed", ck.seed,
                   "-out", ck.path("record.ndjson"))
     if report_hang(ck, s2, "recorded random history"):
         return
